@@ -57,6 +57,8 @@ type auA struct {
 type history struct {
 	Variant  int     `json:"variant"` // 1 mpegts 2 fmp4 3 ll
 	SegCount int     `json:"segcount"`
+	// VariantUnset (not seen by the model, which runs Low-Latency): Muxer.Variant is left at its zero value
+	VariantUnset bool `json:"variantunset,omitempty"`
 	SegMin   int64   `json:"segmin"`
 	PartMin  int64   `json:"partmin"`
 	SegMax   int64   `json:"segmax"`
@@ -114,6 +116,13 @@ func genHistory(r *rng.R, long bool) history {
 	}
 	if r.Bool(1, 8) {
 		h.SegCount = 0 // default
+	}
+	if h.Variant == 3 {
+		// Variant left at its zero value: the documented default is Low-Latency, with every check of that variant
+		h.VariantUnset = r.Bool(1, 4)
+		if r.Bool(1, 12) {
+			h.SegCount = 3 + r.Intn(4) // too few for Low-Latency: Start refuses
+		}
 	}
 	segMins := []int64{100e6, 200e6, 250e6, 500e6, 1000e6, 1500e6, 2000e6, 4000e6}
 	h.SegMin = segMins[r.Intn(len(segMins))]
